@@ -622,6 +622,12 @@ func (fi *fileInstr) rewriteCall(call *ast.CallExpr) {
 			fi.keepRefs[fi.text(sel)] = true
 			fi.replace(sel.Pos(), sel.End(), "simrt."+to)
 			report.FSSites++
+		} else if key == "runtime.GOMAXPROCS" || key == "runtime.NumCPU" {
+			// how many processors there are is one more thing the simulator decides (the same in
+			// every process of a run, whatever GOMAXPROCS the process really has)
+			fi.keepRefs[fi.text(sel)] = true
+			fi.replace(sel.Pos(), sel.End(), "simrt."+obj.Name())
+			report.SyncSites++
 		} else if to, ok := clockFuncs[key]; ok {
 			fi.keepRefs[fi.text(sel)] = true
 			fi.replace(sel.Pos(), sel.End(), "simrt."+to)
